@@ -17,7 +17,7 @@ RULE = (
     "the preserve set -> format_code(preserve=P) without safe mode; oracle: every name of P is still defined. (b) "
     "across files: a library module with 6 definitions (function, camelCase function, class with a method and a "
     "static method, variable, internally used function, duplicate function) x client modules that use every subset of "
-    "them through each access form (from lib import n / import lib; lib.n / from lib import C; C().m() and C.sm()) x "
+    "them through each access form (from lib import n / import lib; lib.n / C().m() and C.sm() / inherited members reached through self and cls in a client subclass) x "
     "max_passes in {1, 5} x safe in {False, True}, on real files, through format_files(preserved_filenames=[client]) "
     "and the command line main([lib, --preserve, client]) (pool replaced by a serial stand-in: schedules are C06's "
     "subject); oracle: the client is executed before and after with a scrubbed import state - same stdout - and every "
@@ -87,13 +87,31 @@ def twin_b(x):
     return x * 7
 '''
 LIB_NAMES = ["plain_func", "camelFunc", "Widget.method", "Widget.static_method", "someVariable", "uses_internal", "twin_b"]
-FORMS = ["from_import", "module_attr"]
+FORMS = ["from_import", "module_attr", "subclass_self"]
 
 
 def client_source(subset, form):
     lines = []
     uses = []
     top = sorted({n.split(".")[0] for n in subset})
+    if form == "subclass_self":
+        # the client reaches inherited members only through self / cls in a subclass
+        lines.append("import vq_lib")
+        lines.append("class Sub(vq_lib.Widget):")
+        lines.append("    def run(self):")
+        members = [n.split(".")[1] for n in subset if n.startswith("Widget.")]
+        lines.append("        return [%s]" % ", ".join("self.%s(1)" % m for m in members))
+        lines.append("    @classmethod")
+        lines.append("    def crun(cls):")
+        lines.append("        return [%s]" % ", ".join("cls.%s(1)" % m for m in members if m == "static_method"))
+        if members:
+            uses.append("print(Sub().run(), Sub.crun())")
+        ref = lambda n: "vq_lib." + n
+        for n in subset:
+            if n.startswith("Widget."):
+                continue
+            uses.append("print(%s)" % ref(n) if n == "someVariable" else "print(%s(1))" % ref(n))
+        return "\n".join(lines + uses) + "\n"
     if form == "from_import":
         if top:
             lines.append("from vq_lib import " + ", ".join(top))
